@@ -34,6 +34,25 @@ Proof. vm_compute. reflexivity. Qed.
 Example c19_ex : arbitrary_str 4 [200; 0; 0; 0; 0; 0; 0; 0; 97; 195; 169; 240; 159] = AOk [97; 195; 169] [240; 159].
 Proof. vm_compute. reflexivity. Qed.
 
+(* the generator programs of the public types: whatever input bytes they are given, they either run out of
+   data or return a value whose text members are valid UTF-8 and whose bounded members are within capacity;
+   they never reach a panic site (good excludes APanic) *)
+Theorem c19_rp_entity : forall u,
+  good (fun v => exists id name icon, v = VRec [("id", VStr id); ("name", name); ("icon", icon)] /\
+                 text_ok 256 id /\ opt_text_ok 64 name) (arb_rp u).
+Proof. exact arb_rp_ok. Qed.
+Theorem c19_user_entity : forall u,
+  good (fun v => exists id icon name dn,
+          v = VRec [("id", VBytes id); ("icon", icon); ("name", name); ("display_name", dn)] /\
+          blen id <= 64 /\ opt_text_ok 128 icon /\ opt_text_ok 64 name /\ opt_text_ok 64 dn) (arb_user u).
+Proof. exact arb_user_ok. Qed.
+Theorem c19_hmac_secret_input : forall u,
+  good (fun v => exists x y se sa pp,
+          v = VRec [("key_agreement", VRec [("x", VBytes x); ("y", VBytes y)]);
+                    ("salt_enc", VBytes se); ("salt_auth", VBytes sa); ("pin_protocol", pp)] /\
+          blen x <= 32 /\ blen y <= 32 /\ blen se <= 80 /\ blen sa <= 32) (arb_hmac u).
+Proof. exact arb_hmac_ok. Qed.
+
 (* tie to the source for the hand-modelled procedural code: the bodies of these functions, as regenerated from
    /repo now, have the shape (literals, operators, calls, control flow, constants) the model was written against *)
 Theorem c19_modelled_functions_unchanged_arb : shapes_hold fn_shapes shapes_arb = true.
@@ -46,3 +65,6 @@ Eval vm_compute in "ASSUMPTIONS c19_key". Print Assumptions c19_key.
 Eval vm_compute in "ASSUMPTIONS c19_vec". Print Assumptions c19_vec.
 Eval vm_compute in "ASSUMPTIONS c19_capacities". Print Assumptions c19_capacities.
 Eval vm_compute in "ASSUMPTIONS c19_modelled_functions_unchanged_arb". Print Assumptions c19_modelled_functions_unchanged_arb.
+Eval vm_compute in "ASSUMPTIONS c19_rp_entity". Print Assumptions c19_rp_entity.
+Eval vm_compute in "ASSUMPTIONS c19_user_entity". Print Assumptions c19_user_entity.
+Eval vm_compute in "ASSUMPTIONS c19_hmac_secret_input". Print Assumptions c19_hmac_secret_input.
